@@ -21,21 +21,23 @@ Definition dstep (a : nat) (d : N) : nat := (a * 10 + N.to_nat (d - 48))%nat.
 
 Lemma dec_go_spec f : forall n acc, (n < f)%nat ->
   exists ds, dec_go f n acc = ds ++ acc /\ ds <> [] /\ forallb is_digit ds = true /\ fold_left dstep ds 0%nat = n /\
-    ((n < 10)%nat -> length ds = 1%nat) /\ ((n < 100)%nat -> (length ds <= 2)%nat) /\ ((n < 1000)%nat -> (length ds <= 3)%nat).
+    ((n < 10)%nat -> length ds = 1%nat) /\ ((n < 100)%nat -> (length ds <= 2)%nat) /\ ((n < 1000)%nat -> (length ds <= 3)%nat) /\
+    ((n < 10 * 1000)%nat -> (length ds <= 4)%nat) /\ ((n < 100 * 1000)%nat -> (length ds <= 5)%nat).
 Proof.
   induction f as [|f IH]; intros n acc Hf; [lia|]. cbn [dec_go]. destruct (Nat.ltb n 10) eqn:E.
   - apply Nat.ltb_lt in E. exists [N.of_nat (n mod 10) + 48]. split; [reflexivity|]. split; [discriminate|].
     split; [cbn; unfold is_digit; rewrite andb_true_r; lia|]. split; [cbn; unfold dstep; lia|]. cbn. lia.
-  - apply Nat.ltb_ge in E. destruct (IH (n / 10)%nat (N.of_nat (n mod 10) + 48 :: acc)) as (ds & A & B & C & D & L1 & L2 & L3); [lia|].
+  - apply Nat.ltb_ge in E. destruct (IH (n / 10)%nat (N.of_nat (n mod 10) + 48 :: acc)) as (ds & A & B & C & D & L1 & L2 & L3 & L4 & L5); [lia|].
     exists (ds ++ [N.of_nat (n mod 10) + 48]). split; [rewrite A, <- app_assoc; reflexivity|]. split; [destruct ds; discriminate|].
     split; [rewrite forallb_app, C; cbn; unfold is_digit; rewrite andb_true_r; lia|].
     split; [rewrite fold_left_app, D; cbn; unfold dstep; lia|]. rewrite app_length. cbn [length].
-    split; [lia|]. split; intros H; [assert (n / 10 < 10)%nat by lia|assert (n / 10 < 100)%nat by lia]; lia.
+    split; [lia|]. split; [intros H; assert (n / 10 < 10)%nat by lia; lia|]. split; [intros H; assert (n / 10 < 100)%nat by lia; lia|].
+    split; intros H; [assert (n / 10 < 1000)%nat by lia|assert (n / 10 < 10 * 1000)%nat by lia]; lia.
 Qed.
 
-Lemma dec_spec n : dec n <> [] /\ forallb is_digit (dec n) = true /\ dec_n (dec n) = Some n /\ ((n < 1000)%nat -> (length (dec n) <= 3)%nat).
+Lemma dec_spec n : dec n <> [] /\ forallb is_digit (dec n) = true /\ dec_n (dec n) = Some n /\ ((n < 100 * 1000)%nat -> (length (dec n) <= 5)%nat).
 Proof.
-  unfold dec. destruct (dec_go_spec (S n) n [] ltac:(lia)) as (ds & A & B & C & D & _ & _ & L3). rewrite app_nil_r in A. rewrite A.
+  unfold dec. destruct (dec_go_spec (S n) n [] ltac:(lia)) as (ds & A & B & C & D & _ & _ & _ & _ & L3). rewrite app_nil_r in A. rewrite A.
   split; [exact B|]. split; [exact C|]. split; [|exact L3]. unfold dec_n. destruct ds; [contradiction|]. rewrite C. f_equal. exact D.
 Qed.
 
@@ -242,7 +244,7 @@ Qed.
 
 (* ---------- form B: printable value in quoted continuations ---------- *)
 Lemma plain_go_sem fuel : forall value i st, line_len st = 0%nat -> spaces st = 0%nat -> value <> [] ->
-  forallb is_printable_b value = true -> (i + length value < 1000)%nat -> (length value < fuel)%nat ->
+  forallb is_printable_b value = true -> (i + length value < 100 * 1000)%nat -> (length value < fuel)%nat ->
   exists cs st' o, rfc2231_plain_go fuel KEY value i st = Ok (st', o) /\ spaces st' = 0%nat /\ cs <> [] /\ concat cs = value /\
     reads_as o (joinp (pBs i cs)) /\ exists o', o = SP :: o'.
 Proof.
@@ -255,7 +257,7 @@ Proof.
   assert (HL : (L = 12 + length (dec i))%nat).
   { unfold L. rewrite !app_length. change (length KEY) with 8%nat. cbn [length]. lia. }
   replace (Nat.ltb MAX_LINE_LEN (L + 3)) with false by (symmetry; apply Nat.ltb_ge; unfold MAX_LINE_LEN; lia).
-  set (remaining := (MAX_LINE_LEN - L - 3)%nat). assert (HR : (58 <= remaining)%nat) by (unfold remaining, MAX_LINE_LEN; lia).
+  set (remaining := (MAX_LINE_LEN - L - 3)%nat). assert (HR : (56 <= remaining)%nat) by (unfold remaining, MAX_LINE_LEN; lia).
   set (m := length (firstn remaining value)). assert (Hm : (m <= length value)%nat) by (unfold m; rewrite firstn_length; lia).
   assert (Hm1 : (1 <= m)%nat). { unfold m. rewrite firstn_length. destruct value; [contradiction|]. cbn [length]. lia. }
   rewrite (trunc_go_printable value m Hp Hm). set (chunk := firstn m value).
@@ -365,7 +367,7 @@ Proof.
 Qed.
 
 Lemma enc_go_sem fuel : forall value i st, line_len st = 0%nat -> spaces st = 0%nat -> value <> [] ->
-  bytes_ok value = true -> (i + length value < 1000)%nat -> (length value < fuel)%nat ->
+  bytes_ok value = true -> (i + length value < 100 * 1000)%nat -> (length value < fuel)%nat ->
   exists cs Ts st' o, rfc2231_enc_go fuel KEY value i st = Ok (st', o) /\ spaces st' = 0%nat /\ cs <> [] /\ concat cs = value /\
     length cs = length Ts /\ Forall2 (fun T c => enc_of T c /\ forallb pct_safe T = true /\ T <> []) Ts cs /\
     reads_as o (joinp (pCs i Ts)) /\ exists o', o = SP :: o'.
@@ -379,7 +381,7 @@ Proof.
   assert (HL : (length head = 12 + length (dec i))%nat).
   { unfold head. rewrite !app_length. change (length KEY) with 8%nat. cbn [length]. lia. }
   set (s1 := mkW (length head) 0 true).
-  assert (E2 : exists s2, (match i with O => w_write_str (bs "utf-8''") s1 | S _ => (s1, []) end) = (s2, pre0 i) /\ spaces s2 = 0%nat /\ (line_len s2 <= 12 + 3 + 7)%nat).
+  assert (E2 : exists s2, (match i with O => w_write_str (bs "utf-8''") s1 | S _ => (s1, []) end) = (s2, pre0 i) /\ spaces s2 = 0%nat /\ (line_len s2 <= 12 + 5 + 7)%nat).
   { destruct i as [|i'].
     - change (bs "utf-8''") with (bs "utf-8'" ++ [39]). rewrite w_write_str_last by reflexivity. eexists. split; [reflexivity|]. split; [reflexivity|].
       cbn [line_len spaces s1]. rewrite HL. cbn [length app bs]. lia.
@@ -557,7 +559,7 @@ Qed.
 (* ---------- ContentDisposition::attachment / inline_with_name ---------- *)
 Definition kind_ok (kind : bytes) : Prop := kind = bs "attachment" \/ kind = bs "inline".
 
-Theorem filename_roundtrip kind fname : kind_ok kind -> nc4 fname = true -> bytes_ok fname = true -> (length fname < 1000)%nat ->
+Theorem filename_roundtrip kind fname : kind_ok kind -> nc4 fname = true -> bytes_ok fname = true -> (length fname < 100 * 1000)%nat ->
   exists e, content_disposition_encode kind fname = Ok e /\ decode_disposition e = Some (kind, fname).
 Proof.
   intros Hk Hn Hb Hlen. unfold content_disposition_encode.
@@ -617,7 +619,7 @@ Proof.
     + clear -HF. generalize 0%nat. induction HF as [|T c Ts cs (_ & Sf & _) _ IH]; intros i; [constructor|]. cbn [pCs]. constructor; [apply transparent_pC; exact Sf|apply IH].
 Qed.
 
-Theorem filename_roundtrip_utf8 kind fname : kind_ok kind -> utf8_valid fname = true -> (length fname < 1000)%nat ->
+Theorem filename_roundtrip_utf8 kind fname : kind_ok kind -> utf8_valid fname = true -> (length fname < 100 * 1000)%nat ->
   exists e, content_disposition_encode kind fname = Ok e /\ decode_disposition e = Some (kind, fname).
 Proof.
   intros Hk H Hl. apply filename_roundtrip; [exact Hk|apply utf8_valid_nc4; exact H|apply (utf8_valid_fuel_bytes_ok _ _ H)|exact Hl].
